@@ -408,6 +408,7 @@ class RuleReport:
     exhaustive: bool = False
     rows: int = 0  # truth-table rows / symbolic cells enumerated
     notes: List[str] = field(default_factory=list)
+    error: Optional[str] = None  # set when the rule could not decide (AnalysisError)
 
     def ob(self, text: str):
         self.instances.append(text)
